@@ -577,3 +577,417 @@ Proof.
   - intros i. rewrite aw_reg0. apply ak_reg.
   - intros y. unfold upd. rewrite aw_rw0, ak_rw. reflexivity.
 Qed.
+
+Lemma Acc_ASr : forall P s s' j v d, Acc s -> ASr s s' j v d -> TrExt P s s' -> 0 <= j <= 16 ->
+  registered (fdt s (16 + j)) = negb v -> d = (if v then 1 else -1) ->
+  (use_raw s = true -> 0 < ev_count s -> (if 16 =? j then v else rw_reg s 16) = true) -> Acc s'.
+Proof.
+  intros P s s' j v d A [] T Jr R D KK. apply (Acc_step P s s' A T).
+  - rewrite ar_nf0, (ac_nf _ A). rewrite (cnt33_set (regf s) (regf s') (16 + j) v ltac:(lia) ar_reg0).
+    unfold regf. rewrite R. destruct v; cbn [negb]; lia.
+  - unfold hnum. rewrite ar_no0, ar_nf0, ar_heap0, (ntask_same s s' ar_tasks0 ar_cur0), (kick_same s s' ar_evc0 ar_ur0), ar_evc0. lia.
+  - intros j' Jr' H. rewrite ar_reg0. rewrite ar_rw0 in H.
+    destruct (Z.eqb_spec j' j) as [->|N].
+    + rewrite Z.eqb_refl. exact H.
+    + destruct (Z.eqb_spec (16 + j') (16 + j)); [lia|]. apply (ac_raw _ A); assumption.
+  - rewrite ar_ur0, ar_evc0, ar_rw0. exact KK.
+  - rewrite (treg_same s s' _ ar_tasks0 ar_cur0). auto.
+Qed.
+
+Lemma ASr_emit : forall s a s1 e j v d, ASr (emit s (TAct a)) s1 j v d -> ASr s (emit s1 e) j v d.
+Proof. intros s a s1 e j v d []. constructor; assumption. Qed.
+
+Lemma actA_ARwReg : forall b s j, J b s -> Acc s -> inr16 j -> PA s (do_action s (ARwReg j)).
+Proof.
+  intros b s j Jh A I. act_T T. cbn [do_action] in *.
+  destruct (rw_reg s j) eqn:RG; [apply PA_same; exact A|].
+  pose proof (raw_register_A (emit s (TAct (ARwReg j))) j) as Q.
+  destruct (raw_register _ j) as [r failed]. cbn [fst snd] in Q.
+  destruct r as [s1|s1]; unfold PA; cbn [bind ARes res_state] in *; [|exact Logic.I].
+  assert (U : registered (fdt s (16 + j)) = false).
+  { destruct (registered (fdt s (16 + j))) eqn:E; [|reflexivity].
+    rewrite (fx_raw _ (j_fx _ _ Jh) j) in RG; [discriminate|unfold inr16 in I; lia|exact E]. }
+  destruct failed.
+  - split; [|apply Bq_heap; destruct Q; assumption].
+    apply (Acc_AW ca s _ A); [|exact T]. destruct Q. constructor; assumption.
+  - pose proof (ASr_emit _ _ _ (TRes 2 j 0) _ _ _ Q) as Q1.
+    split; [|apply Bq_heap; destruct Q1; assumption].
+    apply (Acc_ASr ca s _ j true 1 A Q1 T); [unfold inr16 in I; lia|exact U|reflexivity|].
+    intros H1 H2. destruct (Z.eqb_spec 16 j); [reflexivity|]. apply (ac_kick _ A); assumption.
+Qed.
+
+Lemma actA_ARwUnreg : forall s j, Acc s -> inr16 j -> PA s (do_action s (ARwUnreg j)).
+Proof.
+  intros s j A I. act_T T. cbn [do_action] in *.
+  destruct (rw_reg s j) eqn:RG; [|apply PA_same; exact A].
+  pose proof (raw_unregister_A (emit s (TAct (ARwUnreg j))) j) as Q.
+  destruct (raw_unregister _ j) as [s1|s1]; unfold PA; cbn [ARes res_state] in *; [|exact Logic.I].
+  assert (Q1 : ASr s s1 j false (-1)) by (destruct Q; constructor; assumption).
+  split; [|apply Bq_heap; destruct Q1; assumption].
+  apply (Acc_ASr ca s _ j false (-1) A Q1 T); [unfold inr16 in I; lia| |reflexivity|].
+  - apply (ac_raw _ A); [unfold inr16 in I; lia|exact RG].
+  - intros H1 H2. destruct (Z.eqb_spec 16 j); [unfold inr16 in I; lia|]. apply (ac_kick _ A); assumption.
+Qed.
+
+(* ---------- events ---------- *)
+Record AWd (s s' : core) (d : Z) : Prop := {
+  ad_no : numobjs s' = numobjs s + d;
+  ad_nf : numfds s' = numfds s;
+  ad_reg : forall i, registered (fdt s' i) = registered (fdt s i);
+  ad_heap : heap s' = heap s;
+  ad_tasks : tasks s' = tasks s;
+  ad_cur : cur s' = cur s;
+  ad_evc : ev_count s' = ev_count s;
+  ad_ur : use_raw s' = use_raw s;
+  ad_rw : rw_reg s' = rw_reg s;
+  ad_method : method s' = method s }.
+
+Lemma AWd_plain : forall s s' d, numobjs s' = numobjs s + d -> numfds s' = numfds s -> fdt s' = fdt s -> heap s' = heap s ->
+  tasks s' = tasks s -> cur s' = cur s -> ev_count s' = ev_count s -> use_raw s' = use_raw s -> rw_reg s' = rw_reg s ->
+  method s' = method s -> AWd s s' d.
+Proof. intros. constructor; try assumption. intros i. congruence. Qed.
+
+Lemma AS_AWd : forall s s', AS s s' -> AWd s s' 0.
+Proof. intros s s' []. constructor; try assumption. lia. Qed.
+
+Lemma AWd_trans : forall a b c d1 d2, AWd a b d1 -> AWd b c d2 -> AWd a c (d1 + d2).
+Proof. intros a b c d1 d2 [] []. constructor; try congruence. lia. Qed.
+
+Lemma AWd_tr : forall a b c d1 d2 d, AWd a b d1 -> AWd b c d2 -> d = d1 + d2 -> AWd a c d.
+Proof. intros. subst d. eapply AWd_trans; eassumption. Qed.
+
+Lemma event_rx_on_A : forall s,
+  ARes (fun s' => AWd s s' (if snd (event_rx_on s) then 0 else 1)) (fst (event_rx_on s)).
+Proof.
+  intros s. unfold event_rx_on.
+  match goal with |- context [match ?X with R _ => _ | Halt _ => _ end] =>
+    assert (Q : ARes (fun s1 => AWd s s1 0) X); [|destruct X as [s1|s1]] end.
+  { destruct (active_ref s =? 0); [|cbn [ARes]; apply AS_AWd; apply AS_refl].
+    destruct (eventfd_grab (kern s) (efd_epoll s)) as [[k1 [fd|e]] u].
+    - destruct (k_write k1 fd 8 1) as [k2 x]. cbn [ARes]. apply AWd_plain; try reflexivity. cbn [numobjs set_activefd set_efd set_kern]. lia.
+    - cbv zeta. destruct (k_pipe _) as [k2 [[r w]|]]; [|exact Logic.I].
+      destruct (k_write k2 w 1 0) as [k3 [n|e3]]; [|exact Logic.I].
+      cbn [ARes]. apply AWd_plain; try reflexivity. cbn [numobjs set_activewr set_activefd set_efd set_kern]. lia. }
+  - cbn [ARes] in Q. cbv zeta. destruct (ctl_retry _ _ _ _ _) as [s2 e] eqn:C. apply ctl_retry_AS in C.
+    assert (Q2 : AWd s s2 0).
+    { eapply AWd_tr with (d1 := 0) (d2 := 0); [exact Q| |reflexivity].
+      eapply AWd_tr with (d1 := 0) (d2 := 0); [|apply AS_AWd; exact C|reflexivity].
+      apply AWd_plain; try reflexivity. cbn [numobjs set_activefd]. lia. }
+    destruct e; cbn [fst snd ARes]; [exact Q2|].
+    eapply AWd_tr with (d1 := 0) (d2 := 1); [exact Q2| |reflexivity]. apply AWd_plain; try reflexivity.
+  - cbn [fst snd ARes]. exact Logic.I.
+Qed.
+
+Lemma event_rx_off_A : forall s, ARes (fun s' => AWd s s' (-1)) (event_rx_off s).
+Proof.
+  intros s. unfold event_rx_off.
+  destruct (ctl_retry _ _ _ _ _) as [s1 e] eqn:C. apply ctl_retry_AS in C.
+  destruct e; [exact Logic.I|]. cbv zeta. cbn [ARes].
+  set (s2 := set_activefd s1 _ _).
+  match goal with |- AWd s (set_numobjs ?S3 _) (-1) => assert (A3 : AWd s2 S3 0) end.
+  { destruct (active_ref s2 =? 0); [|apply AS_AWd; apply AS_refl].
+    match goal with |- AWd s2 (if _ then ?A else set_activewr ?B _) 0 => assert (AA : AWd s2 A 0) by (apply AS_AWd; apply do_close_AS) end.
+    destruct (active_wr _ =? -1); [exact AA|].
+    eapply AWd_tr with (d1 := 0) (d2 := 0); [exact AA| |reflexivity].
+    eapply AWd_tr with (d1 := 0) (d2 := 0); [apply AS_AWd; apply do_close_AS| |reflexivity].
+    apply AWd_plain; try reflexivity. cbn [numobjs set_activewr]. lia. }
+  eapply AWd_tr with (d1 := 0) (d2 := -1); [apply AS_AWd; exact C| |reflexivity].
+  eapply AWd_tr with (b := s2) (d1 := 0) (d2 := -1); [| |reflexivity].
+  - unfold s2. apply AWd_plain; try reflexivity. cbn [numobjs set_activefd]. lia.
+  - eapply AWd_tr with (d1 := 0) (d2 := -1); [exact A3| |reflexivity].
+    apply AWd_plain; try reflexivity.
+Qed.
+
+(* state after the first stage of the first iv_event_register: the wake-up channel is set up or not *)
+Record Stage1 (s s1 : core) : Prop := {
+  s1_nf : numfds s1 = numfds s;
+  s1_reg : forall i, registered (fdt s1 i) = registered (fdt s i);
+  s1_heap : heap s1 = heap s;
+  s1_tasks : tasks s1 = tasks s;
+  s1_cur : cur s1 = cur s;
+  s1_rw : rw_reg s1 = rw_reg s;
+  s1_evc : ev_count s1 = 1;
+  s1_no : (use_raw s1 = false /\ numobjs s1 = numobjs s + 2) \/ (use_raw s1 = true /\ numobjs s1 = numobjs s + 1) }.
+
+Definition AccH (s : core) (r : res) : Prop := ARes (fun s' => TrExt ca s s' -> Acc s' /\ heap s' = heap s) r.
+
+Lemma evreg_tail : forall s s1 j, Acc s -> ev_count s = 0 -> rw_reg s 16 = false -> registered (fdt s 32) = false ->
+  Stage1 s s1 ->
+  AccH s (fst (let '(r0, failed) :=
+          (if use_raw s1 then
+             match raw_register s1 KICK_RAW with
+             | (R s2, true) =>
+                 (R (set_numobjs (set_ev s2 (ev_count s2 - 1) (ev_reg s2) (use_raw s2)) (numobjs s2 - 1)), true)
+             | (r2, fl) => (r2, fl)
+             end
+           else (R s1, false)) in
+        if failed then (r0, true)
+        else (bind r0 (fun s => R (set_ev s (ev_count s) (upd (ev_reg s) j true) (use_raw s))), false))).
+Proof.
+  intros s s1 j A EC RW RG [N1 N2 N3 N4 N5 N6 N7 N8].
+  assert (K0 : kick s = 0) by (unfold kick; rewrite EC; reflexivity).
+  assert (TR : forall s', tasks s' = tasks s -> cur s' = cur s -> task_registered s' LOCAL_TASK = true ->
+                          task_registered s LOCAL_TASK = true \/ posted_ever (mst s') = true).
+  { intros s' E1 E2 H. left. rewrite <- (treg_same s s' _ E1 E2). exact H. }
+  destruct (use_raw s1) eqn:UR.
+  - destruct N8 as [[N8 _]|[_ N8]]; [discriminate|].
+    pose proof (raw_register_A s1 KICK_RAW) as Q.
+    destruct (raw_register s1 KICK_RAW) as [[s2|s2] fl]; cbn [fst snd] in Q; destruct fl; cbn [fst bind AccH ARes] in *;
+      try exact Logic.I.
+    + (* the channel could not be created: everything is taken back *)
+      intros T. destruct Q. split; [|cbn [heap set_numobjs set_ev]; congruence].
+      apply (Acc_step ca s _ A T); cbn [numfds numobjs fdt heap tasks cur ev_count use_raw rw_reg set_numobjs set_ev].
+      * rewrite aw_nf0, N1, (ac_nf _ A). apply cnt33_ext. intros i _. unfold regf. cbn [fdt set_numobjs set_ev]. rewrite aw_reg0, N2. reflexivity.
+      * unfold hnum, kick. cbn [numfds numobjs fdt heap tasks cur ev_count use_raw rw_reg set_numobjs set_ev].
+        rewrite (ntask_same s (set_numobjs _ _)) by (cbn [tasks cur set_numobjs set_ev]; congruence).
+        rewrite aw_no0, aw_nf0, aw_heap0, aw_evc0, N1, N3, N7, N8, EC. cbn. lia.
+      * intros y Y H. rewrite aw_reg0, N2. rewrite aw_rw0, N6 in H. apply (ac_raw _ A); assumption.
+      * rewrite aw_evc0, N7. intros _ H. lia.
+      * apply TR; cbn [tasks cur set_numobjs set_ev]; congruence.
+    + (* registered through a raw event *)
+      intros T. destruct Q. split; [|cbn [heap set_ev]; congruence].
+      apply (Acc_step ca s _ A T); cbn [numfds numobjs fdt heap tasks cur ev_count use_raw rw_reg set_ev].
+      * rewrite ar_nf0, N1, (ac_nf _ A).
+        rewrite (cnt33_set (regf s) (regf (set_ev s2 (ev_count s2) (upd (ev_reg s2) j true) (use_raw s2))) 32 true ltac:(lia)).
+        -- unfold regf. rewrite RG. lia.
+        -- intros i. unfold regf. cbn [fdt set_ev]. rewrite ar_reg0, N2. unfold KICK_RAW. reflexivity.
+      * unfold hnum, kick. cbn [numfds numobjs fdt heap tasks cur ev_count use_raw rw_reg set_ev].
+        rewrite (ntask_same s (set_ev _ _ _ _)) by (cbn [tasks cur set_ev]; congruence).
+        rewrite ar_no0, ar_nf0, ar_heap0, ar_evc0, ar_ur0, N1, N3, N7, N8, UR, EC. cbn. lia.
+      * intros y Y H. rewrite ar_reg0, N2. rewrite ar_rw0, N6 in H. unfold KICK_RAW in *.
+        destruct (Z.eqb_spec y 16) as [->|NE]; [reflexivity|].
+        destruct (Z.eqb_spec (16 + y) (16 + 16)); [lia|]. apply (ac_raw _ A); assumption.
+      * intros _ _. rewrite ar_rw0. unfold KICK_RAW. reflexivity.
+      * apply TR; cbn [tasks cur set_ev]; congruence.
+  - destruct N8 as [[_ N8]|[N8 _]]; [|discriminate]. cbn [fst bind AccH ARes].
+    intros T. split; [|cbn [heap set_ev]; congruence].
+    apply (Acc_step ca s _ A T); cbn [numfds numobjs fdt heap tasks cur ev_count use_raw rw_reg set_ev].
+    + rewrite N1, (ac_nf _ A). apply cnt33_ext. intros i _. unfold regf. cbn [fdt set_ev]. rewrite N2. reflexivity.
+    + unfold hnum, kick. cbn [numfds numobjs fdt heap tasks cur ev_count use_raw rw_reg set_ev].
+      rewrite (ntask_same s (set_ev _ _ _ _)) by (cbn [tasks cur set_ev]; congruence).
+      rewrite N1, N3, N7, N8, UR, EC. cbn. lia.
+    + intros y Y H. rewrite N2. rewrite N6 in H. apply (ac_raw _ A); assumption.
+    + rewrite UR. discriminate.
+    + apply TR; cbn [tasks cur set_ev]; congruence.
+Qed.
+
+Lemma cnt_nonneg' : forall s, FdX s -> 0 <= ev_count s.
+Proof. intros s X. rewrite (fx_cnt _ X). apply cnt_nonneg. Qed.
+
+Lemma event_register_acc : forall s j, Acc s -> FdX s -> AccH s (fst (event_register s j)).
+Proof.
+  intros s j A X. unfold event_register. cbv zeta.
+  set (s0 := set_ev (set_numobjs s (numobjs s + 1)) _ _ _).
+  change (ev_count (set_numobjs s (numobjs s + 1))) with (ev_count s).
+  pose proof (cnt_nonneg' s X) as NN.
+  assert (TR : forall s', tasks s' = tasks s -> cur s' = cur s -> task_registered s' LOCAL_TASK = true ->
+                          task_registered s LOCAL_TASK = true \/ posted_ever (mst s') = true).
+  { intros s' E1 E2 H. left. rewrite <- (treg_same s s' _ E1 E2). exact H. }
+  destruct (Z.eqb_spec (ev_count s) 0) as [EC|EC].
+  2:{ (* not the first event *)
+    cbn [fst bind AccH ARes]. intros T. split; [|reflexivity].
+    apply (Acc_step ca s _ A T); unfold s0; cbn [numfds numobjs fdt heap tasks cur ev_count use_raw rw_reg set_ev set_numobjs].
+    - exact (ac_nf _ A).
+    - unfold hnum, kick, ntask, curl. cbn [numfds numobjs fdt heap tasks cur ev_count use_raw rw_reg set_ev set_numobjs].
+      destruct (Z.ltb_spec 0 (ev_count s)); [|lia]. destruct (Z.ltb_spec 0 (ev_count s + 1)); [|lia]. lia.
+    - exact (ac_raw _ A).
+    - intros H1 _. apply (ac_kick _ A); [exact H1|lia].
+    - apply TR; reflexivity. }
+  (* the first event *)
+  assert (RW : rw_reg s 16 = false).
+  { destruct (rw_reg s 16) eqn:E; [|reflexivity]. destruct (fx_kick _ X E) as [_ H]. contradiction. }
+  assert (RG : registered (fdt s 32) = false).
+  { destruct (registered (fdt s 32)) eqn:E; [|reflexivity].
+    rewrite (fx_raw _ X 16 ltac:(lia) E) in RW. discriminate. }
+  assert (S0 : forall u, Stage1 s (set_ev s0 (ev_count s0) (ev_reg s0) u) ->
+               Stage1 s (set_ev s0 (ev_count s0) (ev_reg s0) u)) by auto.
+  assert (ST : forall r, ARes (Stage1 s) r ->
+    AccH s (fst (let '(r0, failed) :=
+          match r with
+          | Halt s1 => (Halt s1, false)
+          | R s1 =>
+              if use_raw s1 then
+                match raw_register s1 KICK_RAW with
+                | (R s2, true) =>
+                    (R (set_numobjs (set_ev s2 (ev_count s2 - 1) (ev_reg s2) (use_raw s2)) (numobjs s2 - 1)), true)
+                | (r2, fl) => (r2, fl)
+                end
+              else (R s1, false)
+          end in
+        if failed then (r0, true)
+        else (bind r0 (fun s => R (set_ev s (ev_count s) (upd (ev_reg s) j true) (use_raw s))), false)))).
+  { intros r Q. destruct r as [s1|s1]; [|exact Logic.I]. cbn [ARes] in Q.
+    apply (evreg_tail s s1 j A EC RW RG Q). }
+  assert (STU : Stage1 s (set_ev s0 (ev_count s0) (ev_reg s0) true)).
+  { constructor; try reflexivity; unfold s0; cbn [ev_count use_raw numobjs set_ev set_numobjs]; [lia|right; split; [reflexivity|lia]]. }
+  destruct (negb (use_raw s0)) eqn:NU.
+  - destruct (is_epoll s0).
+    + pose proof (event_rx_on_A s0) as Q.
+      destruct (event_rx_on s0) as [[s1|s1] fl]; cbn [fst snd ARes] in Q; [destruct fl|].
+      * apply (ST (R _)). cbn [ARes]. destruct Q.
+        constructor; cbn [numfds numobjs fdt heap tasks cur ev_count use_raw rw_reg set_ev]; try assumption.
+        -- rewrite ad_evc0. unfold s0; cbn [ev_count set_ev set_numobjs]. lia.
+        -- right. split; [reflexivity|]. rewrite ad_no0. unfold s0; cbn [numobjs set_ev set_numobjs]. lia.
+      * apply (ST (R s1)). cbn [ARes]. destruct Q.
+        constructor; try assumption.
+        -- rewrite ad_evc0. unfold s0; cbn [ev_count set_ev set_numobjs]. lia.
+        -- left. split.
+           ++ rewrite ad_ur0. apply negb_true_iff in NU. exact NU.
+           ++ rewrite ad_no0. unfold s0; cbn [numobjs set_ev set_numobjs]. lia.
+      * apply (ST (Halt s1)). exact Logic.I.
+    + apply (ST (R _)). exact STU.
+  - apply (ST (R s0)). cbn [ARes]. apply negb_false_iff in NU.
+    constructor; try reflexivity; unfold s0; cbn [ev_count use_raw numobjs set_ev set_numobjs]; [lia|right; split; [exact NU|lia]].
+Qed.
+
+Lemma event_unregister_acc : forall s j, Acc s -> FdX s -> inr16 j -> ev_reg s j = true ->
+  AccH s (event_unregister s j).
+Proof.
+  intros s j A X I ER. unfold event_unregister. cbv zeta.
+  set (s0 := set_ev _ _ _ _).
+  assert (EC1 : 1 <= ev_count s) by (rewrite (fx_cnt _ X); apply (cnt_pos _ j I ER)).
+  assert (TR : forall s', tasks s' = tasks s -> cur s' = cur s -> task_registered s' LOCAL_TASK = true ->
+                          task_registered s LOCAL_TASK = true \/ posted_ever (mst s') = true).
+  { intros s' E1 E2 H. left. rewrite <- (treg_same s s' _ E1 E2). exact H. }
+  assert (F0 : numobjs s0 = numobjs s /\ numfds s0 = numfds s /\ fdt s0 = fdt s /\ heap s0 = heap s /\ tasks s0 = tasks s /\
+               cur s0 = cur s /\ ev_count s0 = ev_count s - 1 /\ use_raw s0 = use_raw s /\ rw_reg s0 = rw_reg s) by (repeat split).
+  destruct F0 as (F1 & F2 & F3 & F4 & F5 & F6 & F7 & F8 & F9).
+  destruct (Z.eqb_spec (ev_count s0) 0) as [Z0|NZ].
+  - (* the last event: the wake-up channel goes away *)
+    assert (EC : ev_count s = 1) by lia.
+    destruct (use_raw s0) eqn:UR.
+    + pose proof (raw_unregister_A s0 KICK_RAW) as Q.
+      destruct (raw_unregister s0 KICK_RAW) as [s1|s1]; cbn [bind AccH ARes] in *; [|exact Logic.I].
+      intros T. destruct Q. unfold KICK_RAW in *. split; [|cbn [heap set_numobjs]; congruence].
+      assert (RW : rw_reg s 16 = true) by (apply (ac_kick _ A); [congruence|lia]).
+      assert (RG : registered (fdt s 32) = true) by (apply (ac_raw _ A 16); [lia|exact RW]).
+      apply (Acc_step ca s _ A T); cbn [numfds numobjs fdt heap tasks cur ev_count use_raw rw_reg set_numobjs].
+      * rewrite ar_nf0, F2, (ac_nf _ A).
+        rewrite (cnt33_set (regf s) (regf (set_numobjs s1 (numobjs s1 - 1))) 32 false ltac:(lia)).
+        -- unfold regf. rewrite RG. lia.
+        -- intros i. unfold regf. cbn [fdt set_numobjs]. rewrite ar_reg0, F3. reflexivity.
+      * unfold hnum, kick. cbn [numfds numobjs fdt heap tasks cur ev_count use_raw rw_reg set_numobjs].
+        rewrite (ntask_same s (set_numobjs _ _)) by (cbn [tasks cur set_numobjs]; congruence).
+        rewrite ar_no0, ar_nf0, ar_heap0, ar_evc0, ar_ur0, F1, F2, F4, F7, UR, EC. rewrite <- F8. cbn. lia.
+      * intros y Y H. rewrite ar_reg0, F3. rewrite ar_rw0, F9 in H.
+        destruct (Z.eqb_spec y 16) as [->|NE]; [discriminate|].
+        destruct (Z.eqb_spec (16 + y) (16 + 16)); [lia|]. apply (ac_raw _ A); assumption.
+      * rewrite ar_evc0, F7, EC. intros _ H. lia.
+      * apply TR; cbn [tasks cur set_numobjs]; congruence.
+    + pose proof (event_rx_off_A s0) as Q.
+      destruct (event_rx_off s0) as [s1|s1]; cbn [bind AccH ARes] in *; [|exact Logic.I].
+      intros T. destruct Q. split; [|cbn [heap set_numobjs]; congruence].
+      apply (Acc_step ca s _ A T); cbn [numfds numobjs fdt heap tasks cur ev_count use_raw rw_reg set_numobjs].
+      * rewrite ad_nf0, F2, (ac_nf _ A). apply cnt33_ext. intros i _. unfold regf. cbn [fdt set_numobjs]. rewrite ad_reg0, F3. reflexivity.
+      * unfold hnum, kick. cbn [numfds numobjs fdt heap tasks cur ev_count use_raw rw_reg set_numobjs].
+        rewrite (ntask_same s (set_numobjs _ _)) by (cbn [tasks cur set_numobjs]; congruence).
+        rewrite ad_no0, ad_nf0, ad_heap0, ad_evc0, ad_ur0, F1, F2, F4, F7, UR, EC. rewrite <- F8. cbn. lia.
+      * intros y Y H. rewrite ad_reg0, F3. rewrite ad_rw0, F9 in H. apply (ac_raw _ A); assumption.
+      * rewrite ad_evc0, F7, EC. intros _ H. lia.
+      * apply TR; cbn [tasks cur set_numobjs]; congruence.
+  - cbn [bind AccH ARes]. intros T. split; [|reflexivity].
+    apply (Acc_step ca s _ A T); cbn [numfds numobjs fdt heap tasks cur ev_count use_raw rw_reg set_numobjs].
+    + exact (ac_nf _ A).
+    + unfold hnum, kick. cbn [numfds numobjs fdt heap tasks cur ev_count use_raw rw_reg set_numobjs].
+      rewrite (ntask_same s (set_numobjs _ _)) by (cbn [tasks cur set_numobjs]; congruence).
+      rewrite F1, F2, F4, F7, F8.
+      destruct (Z.ltb_spec 0 (ev_count s - 1)); [|lia]. destruct (Z.ltb_spec 0 (ev_count s)); [|lia]. lia.
+    + intros y Y H. rewrite F3. rewrite F9 in H. apply (ac_raw _ A); assumption.
+    + rewrite F8, F7, F9. intros H1 H2. apply (ac_kick _ A); [exact H1|lia].
+    + apply TR; cbn [tasks cur set_numobjs]; congruence.
+Qed.
+
+Lemma actA_AEvReg : forall b s j, J b s -> Acc s -> PA s (do_action s (AEvReg j)).
+Proof.
+  intros b s j Jh A. act_T T. cbn [do_action] in *.
+  destruct (ev_reg s j) eqn:ER; [apply PA_same; exact A|].
+  set (ex := emit s (TAct (AEvReg j))) in *.
+  assert (AX : Acc ex) by (apply (Acc_AS ca s ex A); [apply AS_emit|apply emit_act_ext]).
+  assert (XX : FdX ex) by (apply FdX_emit; apply (j_fx _ _ Jh)).
+  pose proof (event_register_acc ex j AX XX) as Q.
+  pose proof (event_register_ext ex j) as TX.
+  destruct (event_register ex j) as [r failed]. cbn [fst] in Q, TX.
+  destruct r as [s1|s1]; unfold PA; cbn [bind ARes AccH res_state] in *; [|exact Logic.I].
+  destruct (Q TX) as [Q1 Q2]. split.
+  - apply (Acc_AS ca s1 _ Q1); [apply AS_emit|apply TrExt_emit; exact Logic.I].
+  - apply Bq_heap. cbn [heap emit set_trace]. exact Q2.
+Qed.
+
+Lemma actA_AEvUnreg : forall b s j, J b s -> Acc s -> inr16 j -> PA s (do_action s (AEvUnreg j)).
+Proof.
+  intros b s j Jh A I. act_T T. cbn [do_action] in *.
+  destruct (ev_reg s j) eqn:ER; [|apply PA_same; exact A].
+  set (ex := emit s (TAct (AEvUnreg j))) in *.
+  assert (AX : Acc ex) by (apply (Acc_AS ca s ex A); [apply AS_emit|apply emit_act_ext]).
+  assert (XX : FdX ex) by (apply FdX_emit; apply (j_fx _ _ Jh)).
+  pose proof (event_unregister_acc ex j AX XX I ER) as Q.
+  pose proof (event_unregister_ext ex j) as TX.
+  destruct (event_unregister ex j) as [s1|s1]; unfold PA; cbn [ARes AccH res_state] in *; [|exact Logic.I].
+  destruct (Q TX) as [Q1 Q2]. split; [exact Q1|apply Bq_heap; exact Q2].
+Qed.
+
+(* ---------- every action ---------- *)
+Theorem do_action_A : forall b s a, J b s -> Acc s -> wf_action a -> PA s (do_action s a).
+Proof.
+  intros b s a Jh A W. destruct a; cbn [wf_action] in W.
+  - apply actA_AFdReg; assumption.
+  - apply actA_AFdTry; assumption.
+  - apply actA_AFdUnreg; assumption.
+  - apply actA_AFdSetH; assumption.
+  - apply actA_AFdCookie; assumption.
+  - apply actA_AFdFresh; assumption.
+  - apply actA_AKSet; assumption.
+  - apply actA_AKClose; assumption.
+  - apply actA_AKOpen; assumption.
+  - eapply actA_ATmRegAbs; eassumption.
+  - eapply actA_ATmRegRel; eassumption.
+  - eapply actA_ATmUnreg; eassumption.
+  - apply actA_ATmFresh; assumption.
+  - apply actA_ATkReg; assumption.
+  - eapply actA_ATkUnreg; eassumption.
+  - apply actA_ATkFresh; assumption.
+  - eapply actA_AEvReg; eassumption.
+  - eapply actA_AEvUnreg; eassumption.
+  - apply actA_AEvPost; assumption.
+  - apply actA_AEvFresh; assumption.
+  - eapply actA_ARwReg; eassumption.
+  - apply actA_ARwUnreg; assumption.
+  - apply actA_ARwPost; assumption.
+  - apply actA_ARwFresh; assumption.
+  - apply actA_AQuit; assumption.
+  - apply actA_AClockAdv; assumption.
+  - apply actA_AInvalidate; assumption.
+  - apply actA_AValidate; assumption.
+Qed.
+
+(* J and the accounting invariant together *)
+Definition PJA (b : bool) (s : core) (r : res) : Prop :=
+  match r with R s' => J b s' /\ Acc s' /\ Fr s s' /\ Bq s s' | Halt _ => True end.
+
+Lemma PJA_of : forall b s r, Post b s r -> PA s r -> PJA b s r.
+Proof.
+  intros b s r P Q. destruct r as [s'|s']; cbn [Post PJA] in *; [|exact Logic.I].
+  unfold PA in Q. cbn [ARes] in Q. destruct P as [P1 P2], Q as [Q1 Q2]. auto.
+Qed.
+
+Lemma PJA_bind : forall b s r f, PJA b s r ->
+  (forall s1, J b s1 -> Acc s1 -> Fr s s1 -> PJA b s1 (f s1)) -> PJA b s (bind r f).
+Proof.
+  intros b s r f P K. destruct r as [s1|s1]; cbn [bind PJA] in *; [|exact Logic.I].
+  destruct P as (J1 & A1 & F1 & B1). specialize (K s1 J1 A1 F1).
+  destruct (f s1) as [s2|s2]; cbn [PJA] in *; [|exact Logic.I].
+  destruct K as (J2 & A2 & F2 & B2). split; [exact J2|split; [exact A2|split; [eapply Fr_trans; eassumption|eapply Bq_trans; eassumption]]].
+Qed.
+
+Lemma PJA_same : forall b s, J b s -> Acc s -> PJA b s (R s).
+Proof. intros b s Jh A. split; [exact Jh|split; [exact A|split; [apply Fr_refl|apply Bq_refl]]]. Qed.
+
+Lemma do_action_PJA : forall b s a, J b s -> Acc s -> wf_action a -> PJA b s (do_action s a).
+Proof. intros b s a Jh A W. apply PJA_of; [apply do_action_post; assumption|eapply do_action_A; eassumption]. Qed.
+
+Lemma run_acts_PJA : forall b l s, J b s -> Acc s -> Forall wf_action l -> PJA b s (run_acts s l).
+Proof.
+  intros b l. induction l as [|a l IH]; intros s Jh A W; cbn [run_acts]; [apply PJA_same; assumption|].
+  inversion W as [|? ? W1 W2]; subst.
+  eapply PJA_bind; [apply do_action_PJA; assumption|]. intros s1 J1 A1 _. apply IH; assumption.
+Qed.
